@@ -116,6 +116,49 @@ def guard_ok(g, fld):
     return g[0] == "discr" and _pure_path(t) and self_field_of(t) == fld
 
 
+def _shared_stream_form(ctx, rid, b, nx, fam, ck, other):
+    """One CodedOutputStream over the caller's writer for the whole exposition: created before the loop, every family written into it by one
+    write_length_delimited_to (the same framing routine of rust-protobuf), flushed -- with the error propagated -- on every path to Ok.  Records the R1 obligations."""
+    from pvrules.rules import result_assign_blocks
+    news = [c for c in other if c.matches("CodedOutputStream::new")]
+    wrs = [c for c in other if c.matches("Message::write_length_delimited_to")]
+    fl = [c for c in other if c.matches("CodedOutputStream::flush")]
+    rest = [c for c in other if c not in news + wrs + fl]
+    if len(news) != 1 or len(wrs) != 1 or not fl:
+        return False
+    os_ = news[0].result_term()
+    on_os = lambda c: any(s_ == os_ for s_ in subterms(c.args[1] if c.matches("Message::write_length_delimited_to") else c.args[0]))
+    ok = not rest and any(s_ == P(3) for s_ in subterms(news[0].args[0])) and b.dominates(news[0].bb, nx.bb) and news[0].bb not in b.reach(nx.target) \
+        and on_os(wrs[0]) and all(on_os(c) for c in fl)
+    ctx.ob(rid, "encode|one-delimited-write", ok,
+           "each family must be written by exactly one write_length_delimited_to into the one stream created over the caller's writer before the loop, and by nothing else "
+           "(found %d streams, %d delimited writes, other writes %s)" % (len(news), len(wrs), [strip_generics(c.callee) for c in rest]), site=b.raw["span"]["at"])
+    if not ok:
+        return True
+    cont = try_continue_block(b, ck)
+    if cont is None:
+        # `if let Err(e) = check(mf) { ..; return Err(e) }`: the Ok arm of the switch on the check's result
+        si_c = b.switch_info(ck.target) if ck.target is not None else None
+        if si_c and si_c[0] == ("discr", ck.result_term()):
+            okt = [t for v, t in si_c[1] if v == 0]
+            errt = [t for v, t in si_c[1] if v == 1]
+            from pvrules.rules import rejecting
+            if okt and errt and rejecting(b, errt[0]):
+                cont = okt[0]
+    si = b.switch_info(nx.target)
+    body_entry = [t for v, t in si[1] if v == 1][0]
+    w = wrs[0]
+    ok2 = peel(ck.args[0]) == fam and peel(w.args[0]) == fam and cont is not None and b.dominates(cont, w.bb) \
+        and b.all_paths_pass(body_entry, [w.bb], dst_set={nx.bb}) and try_continue_block(b, w) is not None
+    ctx.ob(rid, "encode|check-then-write", ok2, "the check must precede the write of the same family into the caller's writer, and write errors must propagate", site=w.span)
+    _, okb = result_assign_blocks(b)
+    after = b.reach(w.bb)
+    oks = [x for x in okb if x in after]
+    flushed = bool(oks) and all(try_continue_block(b, c) is not None for c in fl) and b.all_paths_pass(w.target, [c.bb for c in fl], dst_set=set(oks))
+    ctx.ob(rid, "encode|stream-flushed", flushed, "what was written into the shared stream must be flushed to the caller's writer, with the error propagated, on every path that returns Ok", site=fl[0].span)
+    return True
+
+
 def rule_R1(ctx, f):
     rid = "R1"
     ctx.rule(rid, "framing: in ProtobufEncoder::encode every family of the slice, in order, passes check_metric_family(mf)? and is then written by exactly one "
@@ -134,10 +177,15 @@ def rule_R1(ctx, f):
                                                         "Message::write_to_with_cached_sizes", "Message::write_length_delimited_to", "Message::write_to_vec", "Message::compute_size",
                                                         "Message::cached_size", "Message::write_length_delimited_to_vec", "Message::write_length_delimited_to_bytes"])]
             ok = len(ck) == 1 and len(wr) == 1 and not other
-            ctx.ob(rid, "encode|one-delimited-write", ok,
+            if not ok and len(ck) == 1 and not wr and _shared_stream_form(ctx, rid, b, nx[0], fam, ck[0], other):
+                ok = None
+            if ok is None:
+                pass
+            else:
+              ctx.ob(rid, "encode|one-delimited-write", ok,
                    "each family must be written by exactly one write_length_delimited_to_writer (length prefix + message computed by rust-protobuf) and by nothing else "
                    "(found %d checks, %d delimited writes, other writes %s)" % (len(ck), len(wr), [strip_generics(c.callee) for c in other]), site=b.raw["span"]["at"])
-            if ok:
+            if ok is True:
                 cont = try_continue_block(b, ck[0])
                 si = b.switch_info(nx[0].target)
                 body_entry = [t for v, t in si[1] if v == 1][0]
